@@ -418,7 +418,9 @@ def run_check(pid, tier, seed, replay=None):
         "assumptions": list(getattr(mod, "ASSUMPTIONS", [])) + ["model tied to the code only through the correspondence run recorded here"],
     }
     os.makedirs(os.path.join(VERIF, "evidence"), exist_ok=True)
-    json.dump(ev, open(os.path.join(VERIF, "evidence", pid + ".json"), "w"), indent=1, ensure_ascii=True)
+    # a replay is a diagnostic run on one stored case: it must not overwrite the evidence of the last real run
+    ev_path = os.path.join(VERIF, "evidence", pid + (".replay.json" if replay else ".json"))
+    json.dump(ev, open(ev_path, "w"), indent=1, ensure_ascii=True)
     try:
         import jsonschema
         jsonschema.validate(ev, json.load(open("/root/.vp/EVIDENCE.schema.json")))
